@@ -2982,7 +2982,10 @@ class Mailbox:
         #
         name = name[1:] if name and name[0] == "/" else name
 
-        if name == "inbox":
+        # INBOX is case-insensitive and a quoted or literal "INBOX" reaches us
+        # as the client wrote it.
+        #
+        if name.lower() == "inbox":
             raise InvalidMailbox("You are not allowed to delete the inbox")
 
         mbox = await server.get_mailbox(name)
